@@ -10,7 +10,7 @@ from . import t4file
 class Recorder:
     """Sink: records the projected state of the stages it is interested in."""
 
-    STAGES = ('lattice', 'fill', 'inline', 'converted', 'dedup', 'pruned', 'final')
+    STAGES = ('parsed', 'lattice', 'fill', 'inline', 'converted', 'dedup', 'pruned', 'final')
 
     def __init__(self, pts2, max_cells=400):
         self.pts = [(a / 2.0, b / 2.0, c / 2.0) for a, b, c in pts2]
@@ -28,7 +28,9 @@ class Recorder:
         if stage not in self.STAGES or self.too_big:
             return
         try:
-            if stage == 'lattice':
+            if stage == 'parsed':
+                self.stages.append(self.parsed_stage(objs))
+            elif stage == 'lattice':
                 if self.keys_before_lattice is not None:
                     self.stages.append(self.lattice_stage(objs))
             elif stage in ('fill', 'inline'):
@@ -76,6 +78,40 @@ class Recorder:
         return rows
 
     # -- stages -------------------------------------------------------------
+    @staticmethod
+    def _tr(tr):
+        """12-entry transformation -> [exact, doubled integer origin, integer matrix]."""
+        if not tr:
+            return {'has': False, 'exact': True, 'o2': [0, 0, 0], 'm': [1, 0, 0, 0, 1, 0, 0, 0, 1]}
+        vals = [2.0 * float(x) for x in tr[:3]] + [float(x) for x in tr[3:12]]
+        exact = all(abs(v - round(v)) <= 1e-9 for v in vals)
+        return {'has': True, 'exact': exact, 'o2': [int(round(v)) for v in vals[:3]], 'm': [int(round(v)) for v in vals[3:]]}
+
+    def parsed_stage(self, objs):
+        """What the cell parser read of every cell card (LIKE n BUT already expanded)."""
+        cells = []
+        for key, cell in objs['cells'].items():
+            fillid = cell.fillid
+            lat = int(cell.lattice) if cell.lattice else 0
+            if fillid is None:
+                fill, ranges, univs = 0, [], []
+            elif isinstance(fillid, int):
+                fill, ranges, univs = int(fillid), [], []
+            else:       # LatticeSpec
+                fill = 0
+                ranges = [[int(a), int(b)] for a, b in fillid.bounds]
+                univs = [int(u) for u in fillid.spec]
+            trcl = cell.trcl[0] if cell.trcl else ()
+            try:
+                mat = int(cell.materialID)
+            except (TypeError, ValueError):
+                mat = -1
+            cells.append({'key': int(key), 'u': int(cell.universe), 'zeroimp': bool(cell.importance == 0), 'lat': lat,
+                          'fill': fill, 'ranges': ranges, 'univs': univs, 'mat': mat,
+                          'ftr': self._tr(cell.filltr), 'trcl': self._tr(trcl), 'ntrcl': len(cell.trcl)})
+        return {'stage': 'parsed', 'kind': 'parsed', 'pcells': cells, 'cells': [], 'rows': [], 'vols': [], 'renum': [],
+                'wit': []}
+
     def lattice_stage(self, objs):
         """The cells created by the lattice pass: universe they live in, what fills them (0 = nothing, i.e. the
         element keeps the lattice cell's material) and the transformation that places the filling universe
